@@ -5,6 +5,7 @@ import LinfaSpec.Proofs.MetricsReal
 import LinfaSpec.Proofs.MetricsMore
 import LinfaSpec.Proofs.MetricsGlue
 import LinfaSpec.Proofs.MetricsCall
+import LinfaSpec.Proofs.MetricsSil
 
 /-!
 # C05 — every evaluation metric equals its definition recomputed from first principles
@@ -1086,6 +1087,40 @@ theorem silhouette_points_a_excludes_self (x : List (List ℝ)) (labels : List N
 
 example : (1 : Nat) < ([[0, 0], [3, 4], [(6 : ℝ), 8]] : List (List ℝ)).length ∧ ([0, 0, 1] : List Nat)[1]? = some 0 := by
   exact ⟨by decide, rfl⟩
+
+/-- **the silhouette score is unchanged by one permutation applied to records and labels together**
+(the last score of the statement's invariance clause that had no theorem): `ps` is the list of
+(record, label) pairs; the score is that of `silhouettePts`, the function the driver evaluates -/
+theorem perm_invariant_silhouette (ps ps' : List (List ℝ × Nat)) (h : ps.Perm ps') :
+    silhouettePts (ps.map Prod.fst) (ps.map Prod.snd) = silhouettePts (ps'.map Prod.fst) (ps'.map Prod.snd) :=
+  silhouettePts_perm h
+
+example : ([([0, 0], 0), ([3, 4], 1), ([(6 : ℝ), 8], 0)] : List (List ℝ × Nat)).Perm
+    [([3, 4], 1), ([0, 0], 0), ([6, 8], 0)] := List.Perm.swap _ _ _
+
+/-- the score in position-free form: 1 for a single label, else the mean over the samples of
+`(b − a)/max(a, b)`-by-cases (`silS`), with `a`, `b` built from the total Euclidean distances of the
+record to the samples of each label and the cluster sizes -/
+theorem silhouette_points_def (ps : List (List ℝ × Nat)) :
+    silhouettePts (ps.map Prod.fst) (ps.map Prod.snd) =
+      if (labelSet (ps.map Prod.snd)).length = 1 then 1
+      else (ps.map fun p => silS ps p.1 p.2).sum / (ps.length : ℝ) :=
+  silhouettePts_eq ps
+
+example : (labelSet [0, 1, 0]).length ≠ 1 := by decide
+
+/-- **the label-count glue of the silhouette** (`sils`): a receiver whose `label_count()` is that of
+its own labels (every array-backed dataset, a `CountedTargets` that was not mutated) gives the plain
+score; `silSample` is the cached form `silSampleC` with the data's own label set and cluster sizes -/
+theorem silhouette_fresh_cache {α : Type} [Field α] [LinearOrder α] (d : List (List α)) (labels : List Nat) (i li : Nat) :
+    silhouetteC (labelCache labels) d labels = some (silhouette d labels) ∧
+    silSample d labels i li = silSampleC (labelSet labels) (labelCount labels) d labels i li :=
+  ⟨silhouetteC_fresh d labels, rfl⟩
+
+example : silhouetteC (labelCache [0, 0, 1, 1]) [[0, 1, 4, 5], [1, 0, 3, 4], [4, 3, 0, 1], [5, 4, 1, (0 : Rat)]] [0, 0, 1, 1] =
+    some (47 / 63) ∧
+    silhouetteC (labelCache [0, 0, 0, 1]) [[0, 1, 4, 5], [1, 0, 3, 4], [4, 3, 0, 1], [5, 4, 1, (0 : Rat)]] [0, 0, 1, 2] = none := by
+  refine ⟨by decide +kernel, by decide +kernel⟩
 
 end SilhouetteDist
 
